@@ -13,7 +13,7 @@ use neurons::tensor::{Shape, Tensor};
 pub fn meta(ctx: &Ctx) -> Meta {
     let t = ctx.tier.thorough();
     Meta {
-        rule: format!("builder as a state machine: every layer sequence of <= {} tokens from {{dense,conv,deconv,pool,feedback}} over 5 input shapes with <= {} configuration deviations{}; in every state: announced (input,output) shape of every layer vs the size formulas, a real forward pass on pairwise-distinct data (pre-activation shape = announced, handed-on shape = announced or its flattening, recorded shape = nesting), a real backward pass (gradient shapes = parameter shapes). Flat->spatial: EVERY flat size n in 1..{} in front of each of the three spatial layer kinds (and, for n <= 1024, in front of a feedback block starting with each of them) must be accepted iff n is a perfect square, and then a 1x1 identity kernel / 1x1 pool must reproduce the vector as 1 x r x r in row-major order. Non-trivial = state with >= 2 layers or a flat size >= 2",
+        rule: format!("builder as a state machine: every layer sequence of <= {} tokens from {{dense,conv,deconv,pool,feedback}} over 5 input shapes with <= {} configuration deviations{}; in every state: announced (input,output) shape of every layer vs the size formulas, a real forward pass on pairwise-distinct data (pre-activation shape = announced, handed-on shape = announced or its flattening, recorded shape = nesting), a real backward pass (gradient shapes = parameter shapes). Flat->spatial: EVERY flat size n in 1..{} in front of each of the three spatial layer kinds (and, for n <= 1024, in front of a feedback block starting with each of them) must be accepted iff n is a perfect square (also, through the layers' public constructors, the sizes r^2-2..r^2+2 for roots around 4096, 5793, 8192, 46341 and 65536, i.e. flat sizes from 2^24 to 2^32), and then a 1x1 identity kernel / 1x1 pool must reproduce the vector as 1 x r x r in row-major order. Non-trivial = state with >= 2 layers or a flat size >= 2",
             if t { 3 } else { 3 }, if t { 2 } else { 1 }, if t { "; plus sequences of 4 tokens with <= 1 deviation" } else { "" }, if t { 65536 } else { 4096 }),
         bound: "depth <= 3 (4 in thorough at one deviation); kernels <= 3, strides <= 2(3), paddings <= 2, dilations <= 2".into(),
         exhaustive: true,
@@ -192,6 +192,39 @@ pub fn check_net(net: &Net, seed: u64, case: &Kv, rep: &mut Report) {
     }
 }
 
+/// flat sizes beyond what a dense layer can sensibly be built for (around 2^24, where usize -> f32 stops being exact, and
+/// up to 2^32), through the layers' public constructors: accepted iff perfect square, announced as 1 x r x r
+pub fn check_big_flat(n: usize, kind: &str, case: &Kv, rep: &mut Report) {
+    use neurons::network::Layer;
+    rep.states += 1;
+    rep.evaluations += 1;
+    rep.nontrivial += 1;
+    rep.transitions += 1;
+    let root = {
+        let r = (n as f64).sqrt().round() as usize;
+        if r * r == n {
+            Some(r)
+        } else {
+            None
+        }
+    };
+    let made = guard(|| match kind {
+        "conv" => neurons::verif::layer_shapes(&Layer::Convolution(neurons::convolution::Convolution::create(Shape::Single(n), 1, &neurons::activation::Activation::Linear, (1, 1), (1, 1), (0, 0), (1, 1), None))),
+        "deconv" => neurons::verif::layer_shapes(&Layer::Deconvolution(neurons::deconvolution::Deconvolution::create(Shape::Single(n), 1, &neurons::activation::Activation::Linear, (1, 1), (1, 1), (0, 0), None))),
+        _ => neurons::verif::layer_shapes(&Layer::Maxpool(neurons::maxpool::Maxpool::create(Shape::Single(n), (1, 1), (1, 1)))),
+    });
+    match (root, made) {
+        (None, Ok((inp, _))) => rep.violate(format!("C08 non-square flat size accepted by {}", kind), format!("a flat input of {} elements was accepted and announced as {:?}", n, inp), case),
+        (None, Err(_)) => (),
+        (Some(r), Err(e)) => rep.violate(format!("C08 perfect-square flat size rejected by {}", kind), format!("{} = {}^2: {}", n, r, crate::util::first_line(&e)), case),
+        (Some(r), Ok((inp, _))) => {
+            if dims_of(&inp) != Some(Dims::Chw(1, r, r)) {
+                rep.violate(format!("C08 flat size read with a wrong shape by {}", kind), format!("{} = {}^2 read as {:?}", n, r, inp), case);
+            }
+        }
+    }
+}
+
 /// flat size n in front of a spatial layer kind
 pub fn check_flat(n: usize, kind: &str, case: &Kv, rep: &mut Report) {
     rep.states += 1;
@@ -294,6 +327,16 @@ pub fn run(ctx: &Ctx) -> Report {
     });
     rep.merge_all(parts);
     rep.count("flat_sizes", max_n as u64);
+    // around the squares of roots near 4096 (2^24), 5793 (2^25), 8192, 46341 (2^31), 65536 (2^32): r^2 - 2 .. r^2 + 2
+    for r in (4090usize..=4104).chain(5790..=5796).chain(8190..=8194).chain([11585, 16384, 23170, 46340, 46341, 65535, 65536]) {
+        for d in -2i64..=2 {
+            let n = (r * r) as i64 + d;
+            for kind in ["conv", "deconv", "pool"] {
+                let case = Kv::new().put("kind", "bigflat").put("n", n).put("layer", kind);
+                check_big_flat(n as usize, kind, &case, &mut rep);
+            }
+        }
+    }
     for i in [0usize, nets.len() / 2, nets.len() - 1] {
         rep.sample(Kv::new().put("kind", "net").put("net", nets[i].name()).to_json());
     }
@@ -307,6 +350,7 @@ pub fn replay(ctx: &Ctx, case: &Kv) -> Report {
     let mut r = Report::new();
     match case.get("kind") {
         "flat" => check_flat(case.usize("n"), case.get("layer"), case, &mut r),
+        "bigflat" => check_big_flat(case.usize("n"), case.get("layer"), case, &mut r),
         _ => check_net(&Net::parse(case.get("net")), ctx.seed, case, &mut r),
     }
     r
